@@ -104,6 +104,9 @@ def run_history(ctx, res, rng, hid, allow=("delete_page", "rename_page", "paths"
             if rc != 0:
                 res.failures.append(C.Failure(f"db reindex failed (rc={rc}) on a directory of valid pages", {"log": w.log, "kind": "reindex_failed"}))
                 return
+    if "rename_page" in allow and rng.random() < 0.35:
+        # the last change before the final reindex keeps an old modification time (file replaced by another one / older copy restored)
+        w.replace_page()
     w.advance()
     if w.run("db", "reindex") != 0:
         res.failures.append(C.Failure("final db reindex failed", {"log": w.log, "kind": "reindex_failed"}))
